@@ -27,14 +27,14 @@ ONE realistic change to the rs-matter sources (the kind of bug a refactoring, op
 
 The change must need something specific to manifest: a particular interleaving, a fault or restart at a particular point, a multi-step sequence of operations, an unusual input or boundary value, or two cooperating sites that each look fine alone. It must NOT be something ordinary use would expose at once.
 
-Check that the existing tests still pass with your change: run `flock /tmp/cargo-slot-{slot} cargo test -p rs-matter --offline --features groups` (library unit tests + all integration tests; takes several minutes the first time). If some tests fail, refine the change until they all pass. (A test failing with "Address already in use" is a port clash with other jobs on this machine: rerun it.)
+Check that the existing tests still pass with your change: run `flock /tmp/cargo-slot-{slot} cargo test -p rs-matter --offline --features groups,case-resumption,persistent-subscriptions` (library unit tests + all integration tests; takes several minutes the first time). If some tests fail, refine the change until they all pass. (A test failing with "Address already in use" is a port clash with other jobs on this machine: rerun it.)
 
 Also write a demonstration: a small Rust test (a new file under rs-matter/tests/ or a `#[cfg(test)]` module appended to the touched source file) that FAILS with your change and PASSES without it. Verify both directions yourself.
 
 ## Deliverables, in {d}-out/
 
 * `patch.diff`: `git diff` of the source change only, applicable with `git apply` on the original tree;
-* `demo.diff`: `git diff` that adds the demonstration only (applicable on the original tree and on top of patch.diff); first line of the added test code must be a comment with the exact cargo command that runs it, in the form `// RUN: cargo test -p rs-matter --offline --features groups <args>`;
+* `demo.diff`: `git diff` that adds the demonstration only (applicable on the original tree and on top of patch.diff); first line of the added test code must be a comment with the exact cargo command that runs it, in the form `// RUN: cargo test -p rs-matter --offline --features groups,case-resumption,persistent-subscriptions <args>`;
 * `notes.md`: which clause of the property it breaks, what exactly is needed to manifest it, what you ran and the results.
 
 Leave the worktree with the change NOT applied (`git checkout -- .`, remove untracked files) and DELETE the target directory {d}-target when you finish (disk is scarce). Keep your final answer short: one paragraph describing the change and the manifest condition.
